@@ -587,13 +587,19 @@ class Gen:
                     fields.append(F(None, inner))
                     self.feat("anon:union" if inner["union"] else "anon:struct")
                     if not inner["union"] and not union:
-                        # the small integer fields of an anonymous structure member can size later arrays as well
-                        for ff in inner["fields"]:
-                            if ff["name"] and not ff.get("bits") and ff["t"]["k"] == "int" and ff["t"]["t"] in ("uint8", "int8") \
-                                    and self.chance(0.7):
-                                ff["len_src"] = True
-                                int_names.append(ff["name"])
-                                self.feat("len:folded-field")
+                        # the small integer fields of an anonymous structure member can size later arrays as well,
+                        # also those of anonymous structures inside it (folded in through every level)
+                        def fold(node, level):
+                            for ff in node["fields"]:
+                                if ff["name"] and not ff.get("bits") and ff["t"]["k"] == "int" and \
+                                        ff["t"]["t"] in ("uint8", "int8") and self.chance(0.7):
+                                    ff["len_src"] = True
+                                    int_names.append(ff["name"])
+                                    self.feat("len:folded-field" if level == 0 else "len:folded-field-deep")
+                                elif ff["name"] is None and ff["t"]["k"] == "struct" and not ff["t"].get("union"):
+                                    fold(ff["t"], level + 1)
+
+                        fold(inner, 0)
                 elif y < 0.45:
                     arr = self.array_of(inner, int_names, False, False)
                     # arrays of dynamic elements are fine (variable size) but need allow_dyn
